@@ -329,8 +329,7 @@ func c01DocCases() []string {
 
 // c01Dims adds the dimensions that are independent of the profile's numbers: how the duration and the numbers are
 // written in the config (dsp, enc), whether the schedule is told its start or takes it at the first Next()
-// (start=implicit; leaf profiles only: the level slots of a step profile are counted from the known start), and whether one
-// or several consumers drain it (conc).
+// (start=implicit), and whether one or several consumers drain it (conc).
 func c01Dims(r *rand.Rand, s string) string {
 	if r.Intn(2) == 0 {
 		s += " dsp=" + []string{"str", "sec", "ms", "us", "min", "str", "sec"}[r.Intn(7)]
@@ -339,9 +338,9 @@ func c01Dims(r *rand.Rand, s string) string {
 		s += " enc=" + []string{"int", "yaml", "list", "yamllist", "yaml"}[r.Intn(5)]
 	}
 	switch x := r.Intn(100); {
-	case x < 2 && !strings.HasPrefix(s, "kind=step"):
+	case x < 2:
 		s += fmt.Sprintf(" start=implicit conc=%d", 2+r.Intn(7))
-	case x < 6 && !strings.HasPrefix(s, "kind=step"):
+	case x < 6:
 		s += " start=implicit"
 	case x < 14:
 		s += fmt.Sprintf(" conc=%d", 2+r.Intn(7))
@@ -367,20 +366,24 @@ func c01Lazy(r *rand.Rand, n int) []string {
 		ops := 1 + r.Intn(120)
 		rate := float64(ops) / (float64(d) / 1e9)
 		var c string
-		switch r.Intn(5) {
+		switch r.Intn(6) {
 		case 0:
 			c = fmt.Sprintf("kind=once times=%d", ops)
 		case 1:
 			c = lineIn(math.Floor(rate)+1, math.Floor(rate/2), int64(d))
 		case 2:
 			c = lineIn(0, math.Floor(2*rate)+1, int64(d))
+		case 3:
+			// the first level of a composite is started lazily by whichever instance comes first
+			st := 1 + int64(rate/3)
+			c = stepIn(math.Floor(rate/3)+1, math.Floor(rate/3)+1+float64(2*st), st, int64(d))
 		default:
 			c = constIn(math.Floor(rate)+0.5, int64(d))
 		}
 		conc := 2 + r.Intn(7)
 		switch i % 3 {
 		case 0:
-			out = append(out, c+fmt.Sprintf(" start=implicit conc=%d trials=%d inst=1", conc, 6+r.Intn(6)))
+			out = append(out, c+fmt.Sprintf(" start=implicit conc=%d trials=%d inst=1", conc, 24+r.Intn(16)))
 		case 1:
 			out = append(out, c+fmt.Sprintf(" start=implicit conc=%d trials=%d", conc, 40+r.Intn(60)))
 		default:
@@ -414,7 +417,7 @@ func c01Gen(r *rand.Rand, tier string) []string {
 	// the same fixed profiles once more in every notation / start mode / consumer count
 	for i, base := range append([]string(nil), out...) {
 		out = append(out, base+" dsp="+[]string{"str", "sec", "ms", "us"}[i%4]+" enc="+[]string{"yaml", "list", "int", "yamllist"}[(i/4)%4])
-		if !strings.HasPrefix(base, "kind=step") && i%3 == 0 {
+		if i%3 == 0 {
 			out = append(out, base+" start=implicit")
 		}
 		if i%3 == 1 {
@@ -1092,8 +1095,17 @@ func c01Run(input string) string {
 	if m["kind"] == "step" {
 		d, _ := strconv.ParseInt(m["dur"], 10, 64)
 		var cnt []int
+		// never Start()ed: the slots are counted from the start the profile took for itself. Every level lasts d, so the
+		// reported finish time is start + levels*d and start = fin mod d as long as the start lies less than d after the
+		// clock reading (the Lean driver checks that against the bracket and skips the case otherwise).
+		var sest int64
+		if implicit && d > 0 && fin >= 0 {
+			sest = fin % d
+			parts = fmt.Sprintf(" sest=%d", sest)
+		}
 		if d > 0 {
 			for i, t := range toks {
+				t -= sest
 				j := int(t / d)
 				if j < 0 {
 					j = 0
@@ -1104,7 +1116,7 @@ func c01Run(input string) string {
 				if j < len(cnt) {
 					cnt[j]++
 				}
-				if i > 0 && toks[i-1]/d != t/d {
+				if i > 0 && (toks[i-1]-sest)/d != t/d {
 					idx[i-1], idx[i] = true, true
 				}
 			}
@@ -1113,7 +1125,7 @@ func c01Run(input string) string {
 		for _, c := range cnt {
 			ps = append(ps, strconv.Itoa(c))
 		}
-		parts = " parts=" + strings.Join(ps, ",")
+		parts += " parts=" + strings.Join(ps, ",")
 	}
 	keys := make([]int, 0, len(idx))
 	for i := range idx {
@@ -1205,7 +1217,9 @@ func main() {
 			"as large as the token budget allows; a stream of ill-conditioned lines (ends 1..1000 ulps apart, relative slope down to 1e-15, one end (nearly) zero); " +
 			"a stream at and beyond the validation border (negative rates, durations < 1 ms, step/times < 1); fixed enumeration of fractional-second lines; " +
 			"independently of the numbers: the duration written as ns / 1m30.5s / decimal seconds / ms / us / minutes, the section as a Go map, with int rates, as YAML text, " +
-			"as a one-element rps list (slice -> composite hook); 6 % of the leaf profiles are never Start()ed (the first Next() is the start), 8 % are drained by 2..8 concurrent consumers, plus 800 small profiles by 4..12 consumers; " +
+			"as a one-element rps list (slice -> composite hook); a rate of 0 may be left out of the section (omit=1), half of those after another profile of the same kind was decoded in the process (warm=1); " +
+			"6 % of the profiles are never Start()ed (the first Next() is the start; a third of them with 2..8 consumers doing their first Next() together), 8 % are drained by 2..8 concurrent consumers, plus 800 small profiles by 4..12 consumers; " +
+			"90 small profiles (900 in thorough) built and drained `trials` times: never started + 2..8 consumers, a third of them and a few started/step ones in an instrumented build of the driver (go build -overlay: a scheduling point before every statement of every method of core/schedule, function literals included) where each point yields, sleeps some microseconds or does nothing; " +
 			"three profiles of 2*10^7 operations (indices beyond 2^24); every const/line/step/once example of docs/{eng,rus}/load-profile.md, decoded from the documented text; thorough adds the full grid of 11 rates x 11 rates x 11 durations and small step grids. non-trivial = at least one token emitted or a rejected configuration; distinct = distinct input line",
 	})
 }
